@@ -19,9 +19,9 @@ LEVEL = "model_checking"
 # complete small curves (name, p, A, B): p = 3 and 1 mod 4, A = -3 and A # -3 (incl. A = 0, B = 0), prime and
 # composite orders, points of order 2 (y = 0) and 3.  Attributes are COMPUTED by TLC, not assumed.
 TINY = [("p11a", 11, 8, 0), ("p13a", 13, 0, 3), ("p23a", 23, 1, 2), ("p19a", 19, 16, 9)]
-QUICK_INT = TINY + [("p67a", 67, 64, 1), ("p73a", 73, 70, 32), ("p103a", 103, 1, 2), ("p131a", 131, 1, 24), ("p193a", 193, 0, 2)]
-THOROUGH_INT = QUICK_INT + [("p751a", 751, 748, 5), ("p1019a", 1019, 1016, 7), ("p1021a", 1021, 3, 11), ("p509a", 509, 1, 0),
-                            ("p1013a", 1013, 1010, 2)]
+QUICK_INT = TINY + [("p67a", 67, 64, 1), ("p73a", 73, 70, 32), ("p103a", 103, 1, 2)]
+THOROUGH_INT = QUICK_INT + [("p131a", 131, 1, 24), ("p193a", 193, 0, 2), ("p751a", 751, 748, 5), ("p1019a", 1019, 1016, 7),
+                            ("p1021a", 1021, 3, 11), ("p509a", 509, 1, 0), ("p1013a", 1013, 1010, 2)]
 # multi-word primes (all = 3 mod 4), by ring strategy of zmCreate in the 64-bit build
 BIGP = {
     "b64":   "FFFFFFFFFFFFFF43",                                   # one full word, plain ring
@@ -33,8 +33,8 @@ BIGP = {
 }
 # (name, prime, N, want A = -3)
 QUICK_BIG = [("b64n5", "b64", 5, 0), ("b100n7a3", "b100", 7, 1), ("b128n5a3", "b128", 5, 1), ("b192cn7a3", "b192c", 7, 1),
-             ("b192cn5", "b192c", 5, 0), ("b192mn5a3", "b192m", 5, 1), ("b192mn7", "b192m", 7, 0)]
-THOROUGH_BIG = QUICK_BIG + [("b64n7a3", "b64", 7, 1), ("b100n5", "b100", 5, 0), ("b128n7", "b128", 7, 0), ("b256cn7a3", "b256c", 7, 1),
+             ("b192mn5a3", "b192m", 5, 1)]
+THOROUGH_BIG = QUICK_BIG + [("b192cn5", "b192c", 5, 0), ("b192mn7", "b192m", 7, 0), ("b64n7a3", "b64", 7, 1), ("b100n5", "b100", 5, 0), ("b128n7", "b128", 7, 0), ("b256cn7a3", "b256c", 7, 1),
                             ("b256cn5", "b256c", 5, 0)]
 
 CFUNC = {"addJ": "ecpAddJ", "subJ": "ecpSubJ", "addAJ": "ecpAddAJ", "subAJ": "ecpSubAJ", "addAA": "ecpAddAA", "subAA": "ecpSubAA",
@@ -61,7 +61,7 @@ class Tables:
             codes = d["pts"]
             self.idx = {c: i for i, c in enumerate(codes)}
             self.pts = [None] + [(c >> 15, c & 32767) for c in codes[1:]]
-            cv = lambda row: [self.idx[c] for c in row]
+            cv = lambda row: [self.idx.get(c, -2) for c in row]
             self.a3 = self.A == self.p - 3
         else:
             self.no = d["no"]
@@ -130,6 +130,7 @@ def gen_tables(ctx, name, env, workers=4, timeout=2400):
          "GEN_PHEX": "0B", "GEN_N": "5", "GEN_A3": "0", "GEN_T": "2"}
     e.update(env)
     r = vlib.tlc("Gen_ECSmall", env=e, workers=workers, timeout=timeout, quiet=True)
+    vlib.log("[C06] Gen_ECSmall %s: %.0fs" % (name, r.wall))
     if vlib.tlc_infra_failed(r) or r.rc != 0 or not os.path.exists(os.path.join(gdir, "pts_0.json")):
         return None, r
     t = Tables(name, gdir)
@@ -213,6 +214,9 @@ def compare(ctx, t, rows, build, stats):
                 i = r["i"]
                 exp = tab[i]
                 pairs = [(i, j) for j in range(n)]
+            if row == exp or (row[0] == -9 and row[1:] == exp[1:]):
+                cnt += len(row) - (1 if row[0] == -9 else 0)
+                continue
             for (i, j), e, g in zip(pairs, exp, row):
                 if g == -9:
                     continue
@@ -342,6 +346,73 @@ def crash_site(err):
     return "unknown"
 
 
+def rec_key(row):
+    f = row.get("f", "")
+    cls = ""
+    if row["op"] == "pair":
+        P, Q = row["P"], row["Q"]
+        cls = "P=Q=O" if not P and not Q else "P=O" if not P else "Q=O" if not Q else "P=Q" if P == Q else "P=-Q" if P[0] == Q[0] else "generic"
+        cls = ":%s:alias=%s:%s" % (cls, row["al"], "Z=1" if row["rep"] == 0 else "Z=rnd")
+    elif row["op"] == "unary":
+        cls = ":alias=%s" % row["al"]
+    elif row["op"] == "mul":
+        cls = ":k=%s" % row["cls"]
+    elif row["op"] == "isonraw":
+        cls = ":v=%d" % row["v"]
+    return "record:%s%s%s:curve=%s" % (CFUNC.get(f, f) or row["op"], "" if f else row["op"], cls, row["cv"])
+
+
+def oracle(ctx, tier):
+    """(0) the oracle is validated before use."""
+    cur = TINY if tier == "quick" else THOROUGH_INT[:9]
+    path = ctx.path("curves.ndjson")
+    vlib.write_ndjson(path, [{"name": n, "p": p, "A": A, "B": B} for (n, p, A, B) in cur])
+    r = vlib.tlc("ECpVectors", env={"CURVES": path, "ASSOC_MAX": 30 if tier == "quick" else 80, "WITH_BIGN": 1},
+                 workers=6 if tier == "quick" else 8, timeout=900 if tier == "quick" else 3000, quiet=True)
+    bad = re.findall(r'<<\s*"@BAD",\s*(<<[^>]*>>)', r.out)
+    vlib.log("[C06] ECpVectors: %.0fs" % r.wall)
+    return r, bad, cur
+
+
+def record(ctx, tier, drv):
+    outp = ctx.path("record.ndjson")
+    env = {"VERIF_SEED": ctx.seed}
+    rc, _, err = vlib.run_harness(drv, ["record", tier], out_path=outp, env=env, timeout=900)
+    crash = None
+    if rc != 0:
+        crash = (rc, err)
+        env["VERIF_STACK_SLACK"] = 256
+        rc, _, err = vlib.run_harness(drv, ["record", tier], out_path=outp, env=env, timeout=900)
+    rows = read_rows(outp)
+    n, bad, r = vlib.validate_lines(ctx, "Trace_EC", outp, timeout=1200 if tier == "quick" else 6000, workers=8 if tier == "quick" else None)
+    # binding self-test: one corrupted field per operation kind must be rejected
+    mut, seen = [], set()
+    for row in rows:
+        k = (row["op"], row.get("f"))
+        if k in seen or len(mut) >= 14 or row.get("heavy"):
+            continue
+        m = json.loads(json.dumps(row))
+        if row["op"] in ("pair", "unary", "mulsub", "addmulsub", "swu", "law_addmul") and m.get("R"):
+            m["R"][0][0] ^= 1
+        elif row["op"] in ("hasordersub", "isonraw") and (row["op"] != "hasordersub" or sum(row["d"][1:]) == 0):
+            m["res"] = not m["res"]
+        elif row["op"] == "isonrow" and m["ys"]:
+            m["ys"] = m["ys"][1:]
+        elif row["op"] in ("law_succ", "law_neg") and m.get("R2"):
+            m["R2"][1][0] ^= 1
+        elif row["op"] == "law_order":
+            m["mul_affine"] = True
+        else:
+            continue
+        seen.add(k)
+        mut.append(m)
+    mp = ctx.path("record_mut.ndjson")
+    vlib.write_ndjson(mp, mut)
+    n2, bad2, r2 = vlib.validate_lines(ctx, "Trace_EC", mp, timeout=600, workers=4)
+    vlib.log("[C06] Trace_EC: %d lines %.0fs, self-test %.0fs" % (len(rows), r.wall, r2.wall))
+    return rows, n, bad, r, crash, (len(mut), n2, len(bad2), r2), (rc, err)
+
+
 def run(ctx):
     ev = ctx.ev
     tier = "quick" if ctx.quick else "thorough"
@@ -349,13 +420,28 @@ def run(ctx):
     states = trans = 0
     ints = QUICK_INT if ctx.quick else THOROUGH_INT
     bigs = QUICK_BIG if ctx.quick else THOROUGH_BIG
-    # ---- (1) tables
+    builds = list(BUILDS)
+    drvs = {b: vlib.harness("drv_ec", ["drv_ec.c"], BUILDS[b][0], lib_extra=BUILDS[b][1]) for b in builds}
+    # ---- everything TLC-side runs concurrently: (0) oracle validation, (2) record lines, (1) the tables
     jobs = []
     for (name, p, A, B) in ints:
         jobs.append((name, {"GEN_KIND": "int", "GEN_P": p, "GEN_A": A, "GEN_B": B, "GEN_BITS": bits_of(p)}))
     for (name, pr, N, a3) in bigs:
         jobs.append((name, {"GEN_KIND": "big", "GEN_PHEX": BIGP[pr], "GEN_N": N, "GEN_A3": a3, "GEN_T": 2}))
-    res = vlib.parallel([(lambda j=j: gen_tables(ctx, j[0], j[1], workers=2 if ctx.quick else 4)) for j in jobs], n=8 if ctx.quick else 4)
+    fns = [lambda: oracle(ctx, tier), lambda: record(ctx, tier, drvs["asanrel"])]
+    fns += [(lambda j=j: gen_tables(ctx, j[0], j[1], workers=2 if ctx.quick else 4)) for j in jobs]
+    res = vlib.parallel(fns, n=10 if ctx.quick else 5)
+    (ro, obad, ocur), rec, res = res[0], res[1], res[2:]
+    # (0)
+    states += ro.distinct
+    trans += ro.generated
+    ev.cov["oracle_cases_evaluated"] = max(0, (ro.distinct - 1) // 2)
+    ev.cov["oracle_curves"] = [c[0] for c in ocur] + ["bign-curve128v1 (table G.1 key pair, qG = O)"]
+    if ro.rc != 0 or obad or ro.distinct < 3:
+        ctx.note_inconclusive("the reference semantics ref/ECp.tla fails its own validation (ECpVectors rc=%s, bad cases %s): specification error" % (ro.rc, obad[:5]))
+        return
+    vlib.log("[C06] oracle validated: %d cases, %.0fs" % ((ro.distinct - 1) // 2, time.time() - t0))
+    # (1)
     tables = []
     for (name, _), (t, r) in zip(jobs, res):
         states += r.distinct
@@ -364,12 +450,9 @@ def run(ctx):
             ctx.note_inconclusive("Gen_ECSmall gave no complete tables for %s (rc=%s): %s" % (name, r.rc, (r.violation or r.error or "")[:300]))
         else:
             tables.append(t)
-    vlib.log("[C06] tables of %d curves in %.0fs" % (len(tables), time.time() - t0))
+    vlib.log("[C06] tables of %d curves, %.0fs" % (len(tables), time.time() - t0))
     stats = {"bad": 0}
     compared = 0
-    builds = list(BUILDS)
-
-    drvs = {b: vlib.harness("drv_ec", ["drv_ec.c"], BUILDS[b][0], lib_extra=BUILDS[b][1]) for b in builds}
 
     def one(t, b):
         rows = run_curve(ctx, t, b, tier, stats, drvs[b])
@@ -381,11 +464,64 @@ def run(ctx):
         compared += c
         for r in rows:
             per_op[r["op"]] = per_op.get(r["op"], 0) + 1
+    # binding self-test of the replay comparison: one altered entry of one row must be reported
+    class Probe:
+        def __init__(self): self.keys = []
+        def violation(self, key, text, data=None): self.keys.append(key)
+    pr = Probe()
+    for t, b, rows in outs[:1]:
+        alt = [json.loads(json.dumps(r)) for r in rows if r["op"] in ("addJ", "mulA", "tplJ")][:400:57]
+        for r in alt:
+            r["row"][len(r["row"]) // 2] = (r["row"][len(r["row"]) // 2] + 1) % t.n
+        compare(pr, t, alt, b, {"bad": 0})
+        ev.cov["selftest_replay_altered_entries"] = len(alt)
+        ev.cov["selftest_replay_reported"] = len(pr.keys)
+        if len(pr.keys) != len(alt):
+            ctx.note_inconclusive("binding self-test (replay): %d altered entries, %d reported" % (len(alt), len(pr.keys)))
+    # (2)
+    rows, n, bad, r, crash, (nm, n2, nb2, r2), (rc2, err2) = rec
+    states += r.distinct + r2.distinct
+    trans += r.generated + r2.generated
+    if crash:
+        site = crash_site(crash[1])
+        last = rows and read_rows(ctx.path("record.ndjson"))[-1] or {}
+        ctx.violation("crash:%s:%s:n=%d:W64" % ("stack-overflow" if "heap-buffer-overflow" in crash[1] else "abort", site, (len(rows[-1]["p"]) * 2 + 7) // 8 if rows else 0),
+                      "drv_ec record stopped inside the library with exact-size stacks (rc=%d): %s" % (crash[0], crash[1][-1500:]), crash[1][-6000:])
+    if rc2 != 0:
+        ctx.violation("crash:record:%s" % crash_site(err2), "drv_ec record stopped inside the library (stacks with slack, rc=%d): %s" % (rc2, err2[-1500:]), err2[-6000:])
+    if n < len(rows):
+        ctx.note_inconclusive("Trace_EC evaluated %d of %d recorded lines (rc=%s)" % (n, len(rows), r.rc))
+    for i in bad:
+        row = rows[i - 1]
+        ctx.violation(rec_key(row), "recorded call differs from the group law / the law it must satisfy (line %d of record.ndjson, op %s on %s)"
+                      % (i, row["op"], row["cv"]), {"line": row, "how": "re-run ./check C06; the line is recomputed by spec/trace/Trace_EC.tla"})
+    ev.cov["selftest_record_corrupted_lines"] = nm
+    ev.cov["selftest_record_rejected"] = nb2
+    if n2 == nm and nb2 != nm:
+        ctx.note_inconclusive("binding self-test (record): %d of %d corrupted lines were not rejected" % (nm - nb2, nm))
+    rec_ops = {}
+    for row in rows:
+        rec_ops[row["op"]] = rec_ops.get(row["op"], 0) + 1
     ev.cov["curves"] = [{"name": t.name, "points": t.n, "kind": t.kind, "A=-3": t.a3} for t in tables]
+    ev.cov["builds"] = builds
     ev.cov["rows_by_operation"] = per_op
+    ev.cov["record_lines_by_operation"] = rec_ops
     ev.cov["table_entries_from_tlc"] = sum(t.entries for t in tables)
     ev.cov["table_entries_compared"] = compared
+    ev.cov["record_lines_validated"] = n
     ev.cov["states"] = states
     ev.cov["transitions"] = trans
-    ev.cov["traces_validated_against_impl"] = compared
-    vlib.log("[C06] %d entries compared, %d bad, %.0fs" % (compared, stats["bad"], time.time() - t0))
+    ev.cov["traces_validated_against_impl"] = compared + n
+    for t in tables[:2]:
+        ev.sample({"curve": t.name, "p": t.p, "A": t.A, "B": t.B, "points": t.n, "P1": t.pts[1], "P1+P1": t.pts[t.add[1][1]] if t.add[1][1] else "O",
+                   "order(P1)": t.order[1]})
+    for row in [x for x in rows if x["op"] == "mul" and x.get("heavy")][:1] + [x for x in rows if x["op"] == "law_neg"][:1]:
+        ev.sample({k: (v if not isinstance(v, list) else "...") for k, v in row.items() if k in ("op", "cv", "cls", "heavy")})
+    ev.assume("the oracle is the affine chord-and-tangent law of ref/ECp.tla, validated by TLC in this run (group axioms on complete small curves, "
+              "ScalarMul = iterated sum = Jacobian evaluation, BigNat = integer instantiation, STB 34.101.45 table G.1 on bign-curve128v1)")
+    ev.assume("multi-word moduli %s are prime (Miller-Rabin offline); completeness over them is on a cyclic subgroup of order 5 / 7 whose order TLC checks" % sorted(set(b[1] for b in bigs)))
+    ev.assume("q G = O for bign-curve128v1 is evaluated by TLC (ECpVectors v128/3); for bign96/192/256 the law lines take the standard's q as the order of G")
+    ev.assume("fully aliased calls a = b = c are not generated (ambiguous in ec.h); ecHasOrderA with a composite proper multiple of the point order admits both answers (ec.h)")
+    vlib.log("[C06] %d entries compared, %d record lines, %d bad, %.0fs" % (compared, n, stats["bad"] + len(bad), time.time() - t0))
+
+
